@@ -88,4 +88,14 @@ PROPS['C07'] = {
     'assumptions': ['object extents: message range, iv_len, aad_len, tag_len exactly as given in the job'],
 }
 
+PROPS['C10'] = {
+    'level': 'model_checking',
+    'technique': 'explicit-state BFS over (bytes consumed, exact context bytes) with exact state merging; transitions are real update calls / SGL jobs',
+    'level_text': 'For the direct GCM (fixed and variable IV), GMAC and ChaCha20-Poly1305 init/update/finalize calls and the GCM-SGL / ChaCha20-Poly1305-SGL jobs (INIT/UPDATE/COMPLETE, plus IMB_SGL_ALL with every 1..3-segment array of short messages), both directions, 3 key sizes, 7 variants: all states (consumed length, context bytes) reachable with segment lengths from the alphabet (0..33 dense + every SIMD stride boundary +-1 up to 2048 and 2105; thorough: 0..80 + boundaries up to 4096) are enumerated for a 2400-byte (thorough 4300-byte) message; identical states are merged, which is exact (an update is a function of context, key and input), so every ordered partition over the alphabet is covered. Every emitted segment and every final tag is compared with the one-shot reference.',
+    'level_note': 'Message bytes and key from VERIF_SEED; segment lengths outside the alphabet are not exercised; one message length per tier.',
+    'drivers': [{'name': 'c10', 'src': ['props/c10.c'] + ALG, 'cfgs': ['std'], 'args': ''}],
+    'deadline': {'quick': 900, 'thorough': 3000},
+    'assumptions': ['an update call depends only on (context, key, input segment) - true by construction of the API; merging is on exact bytes'],
+}
+
 NOT_APPLICABLE = {}
